@@ -468,6 +468,6 @@ PROPS = {
         subs=[
             sub("fit_vario", "c17_fit", 160, 8000, qw=8, tw=16),
             sub("fit_sills", "c17_fit", 1200, 40000, qw=2, tw=4),
-            sub("fit_vmap", "c17_fit", 36, 3000, qw=6, tw=12),
+            sub("fit_vmap", "c17_fit", 18, 3000, qw=6, tw=12),
         ]),
 }
